@@ -15,12 +15,16 @@ MANIFEST = dict(
          "product with such a factor - cannot reach a divisor through a path on which its defining loop runs zero times (the n = 1 weight); "
          "(2) the two copies of the node/weight routine (standalone extension and cosmology library) have the same normal form: structured "
          "symbolic execution turns each into a loop tree with, per loop, the entry values and one-pass state transformer of the variables it "
-         "carries, its condition and its element stores (named temporaries substituted, file-static helpers executed in line); "
+         "carries, its condition and its element stores (named temporaries substituted, file-static helpers executed in line, pointers that "
+         "step through one array kept as offsets, loop counters re-based to 1 and variables stepped by a constant replaced by their closed form, "
+         "integer division and integer `<` modelled as such); "
          "(3) the normal form conforms to the textbook definitions: initial guess cos(pi (i-1/4)/(n+1/2)), Legendre recurrence, derivative "
          "identity, Newton step, mirrored fill (index sum n-1), weight 2 xl/((1-z^2) P'^2), tolerance <= 1e-10; (4) the Python wrapper rejects "
          "npts <= 0 before the call and the parse format matches; (5) memo-key discipline of the integrator object: cached tables and their key "
          "are stored under equivalent path conditions, the recompute guard is equivalent to 'a count is requested and differs from the cached key', "
-         "setup runs (directly or through a method) before any use of the tables, nothing else writes them; (6) integrator formulas (affine map "
+         "setup runs (directly or through a method) before any use of the tables, nothing else writes them; the tables are traced to the gauleg call "
+         "that made them through helpers and module-level memo dictionaries by an abstract evaluation over reaching definitions (every writer of "
+         "such a dictionary must store the rule of its key); (6) integrator formulas (affine map "
          "of the abscissae, weighted sum, prefactor, roles of the interpolation call) by symbolic normal forms; (7) symbolic shape and element "
          "inference of the tensor-product grid for nx != ny (which weight sits at which grid point); (8) value preservation on the data path: "
          "reaching definitions follow each input of the linear interpolation through array conversions to the segment search and the formula, "
@@ -332,6 +336,133 @@ class _Loop:
                 yield x
 
 
+_INT_TYPES = {"char", "short", "int", "long", "long long", "size_t", "ssize_t", "ptrdiff_t", "Py_ssize_t", "npy_intp", "npy_uintp", "npy_int", "npy_uint",
+              "npy_long", "npy_ulong", "npy_longlong", "npy_ulonglong", "npy_int8", "npy_int16", "npy_int32", "npy_int64", "npy_uint8", "npy_uint16",
+              "npy_uint32", "npy_uint64", "int8_t", "int16_t", "int32_t", "int64_t", "uint8_t", "uint16_t", "uint32_t", "uint64_t", "intptr_t", "uintptr_t"}
+
+
+def _qual(n):
+    t = n.get("type", {}) if isinstance(n, dict) else {}
+    return t.get("qualType") or ""
+
+
+def _is_int_type(q):
+    q = " ".join(w for w in q.replace("*", " * ").split() if w not in ("const", "volatile", "register", "signed", "unsigned"))
+    q = q.replace("long int", "long").replace("short int", "short").replace("long long int", "long long")
+    return q in _INT_TYPES
+
+
+def _is_ptr_type(q):
+    q = q.strip()
+    return q.endswith("*") or q.endswith("]")
+
+
+def _int_rel(op, a, b):
+    """relation between two integer terms with the strict forms written as the equivalent non-strict ones"""
+    if op == "<":
+        return sp.Le(a, b - 1)
+    if op == ">":
+        return sp.Ge(a, b + 1)
+    return {"<=": sp.Le, ">=": sp.Ge, "==": sp.Eq, "!=": sp.Ne}[op](a, b)
+
+
+def _null_ptr(n):
+    """NULL / 0 / (void*)0"""
+    s = n
+    while isinstance(s, dict) and s.get("kind") in ("ImplicitCastExpr", "ParenExpr", "CStyleCastExpr", "ConstantExpr") and s.get("inner"):
+        s = s["inner"][-1]
+    return s.get("kind") in ("GNUNullExpr", "CXXNullPtrLiteralExpr") or (s.get("kind") == "IntegerLiteral" and str(s.get("value")) == "0")
+
+
+def _ptr_root(n):
+    """the pointer variable an address expression is computed from: v, v + k, k + v, v - k, &v[k], &*v (None: not of that form;
+    "NULL" for a null pointer constant)"""
+    if _null_ptr(n):
+        return "NULL"
+    s = n
+    while isinstance(s, dict) and s.get("kind") in ("ImplicitCastExpr", "ParenExpr", "CStyleCastExpr", "ConstantExpr") and s.get("inner"):
+        s = s["inner"][-1]
+    k = s.get("kind")
+    inner = s.get("inner", []) or []
+    if k == "DeclRefExpr" and _is_ptr_type(_qual(s)):
+        return s.get("referencedDecl", {}).get("name")
+    if k == "BinaryOperator" and s.get("opcode") in ("+", "-") and len(inner) == 2:
+        ptrs = [x for x in inner if _is_ptr_type(_qual(x))]
+        if len(ptrs) == 1 and (s["opcode"] == "+" or ptrs[0] is inner[0]):
+            return _ptr_root(ptrs[0])
+        return None
+    if k == "UnaryOperator" and s.get("opcode") == "&" and inner:
+        t = cfront.strip(inner[0])
+        if t.get("kind") == "ArraySubscriptExpr":
+            return _ptr_root(t["inner"][0])
+        if t.get("kind") == "UnaryOperator" and t.get("opcode") == "*":
+            return _ptr_root(t["inner"][0])
+    return None
+
+
+_cursor_cache = {}
+_written_cache = {}
+
+
+def _written_names(fn):
+    """variables of the function that are assigned, updated or have their address taken somewhere in its body"""
+    key = id(fn)
+    if key not in _written_cache:
+        out = set()
+        for x in cfront.walk(cfront.body_of(fn) or {}):
+            k = x.get("kind")
+            if (k == "BinaryOperator" and x.get("opcode") == "=") or k == "CompoundAssignOperator" or (k == "UnaryOperator" and x.get("opcode") in ("++", "--")):
+                l = cfront.strip(x["inner"][0])
+                if l.get("kind") == "DeclRefExpr":
+                    out.add(l["referencedDecl"]["name"])
+            elif k == "UnaryOperator" and x.get("opcode") == "&" and _addr_of_var(x) is not None:
+                out.add(_addr_of_var(x))
+        _written_cache[key] = out
+    return _written_cache[key]
+
+
+def _cursors(fn):
+    """{p: a} for the local pointer variables p of the function that only ever hold positions in one array a (every assignment to
+    p is a + k, &a[k], another such cursor +- k, or NULL; otherwise p is only stepped).  The executor keeps the offset of such
+    a variable, so `*p`, `p[k]`, `++p` are element accesses / index arithmetic on a."""
+    key = id(fn)
+    if key in _cursor_cache:
+        return _cursor_cache[key]
+    roots = {}
+    taken = set()
+    params = set(cfront.params_of(fn))
+    for x in cfront.walk(cfront.body_of(fn) or {}):
+        k = x.get("kind")
+        if k == "VarDecl" and _is_ptr_type(_qual(x)) and not _qual(x).strip().endswith("]"):
+            init = [c for c in x.get("inner", []) if isinstance(c, dict) and c.get("kind")]
+            roots.setdefault(x.get("name"), [])
+            if init:
+                roots[x["name"]].append(_ptr_root(init[-1]))
+        elif k == "BinaryOperator" and x.get("opcode") == "=":
+            l = cfront.strip(x["inner"][0])
+            if l.get("kind") == "DeclRefExpr" and _is_ptr_type(_qual(l)):
+                roots.setdefault(l["referencedDecl"]["name"], []).append(_ptr_root(x["inner"][1]))
+        elif k == "UnaryOperator" and x.get("opcode") == "&":
+            v = _addr_of_var(x)
+            if v is not None:
+                taken.add(v)
+    out = {}
+    for v, rs in roots.items():
+        named = {r for r in rs if r != "NULL"}
+        if v in params or v in taken or None in named or len(named) != 1 or v in named:
+            continue
+        out[v] = next(iter(named))
+    # a cursor started from another cursor walks the same array
+    for _ in range(len(out) + 1):
+        for v, b in list(out.items()):
+            if b in out and out[b] != v:
+                out[v] = out[b]
+    # the array itself is fixed: a parameter that is never assigned, or a local that is given its value once
+    out = {v: b for v, b in out.items() if b not in out and len([r for r in roots.get(b, []) if r != "NULL"]) <= (0 if b in params else 1)}
+    _cursor_cache[key] = out
+    return out
+
+
 class _CLower(csymx.Lower):
     def __init__(self, ex):
         self.ex = ex
@@ -344,23 +475,37 @@ class _CLower(csymx.Lower):
         inner = n.get("inner", []) or []
         ex = self.ex
         if k == "DeclRefExpr":
-            nm = ex.name(n["referencedDecl"]["name"])
+            plain = n["referencedDecl"]["name"]
+            nm = ex.name(plain)
             if nm in ex.alias[-1]:
                 raise csymx.CUnsupported("pointer parameter used as a value")
+            if plain in ex.curs[-1]:
+                base, off = ex.ptr_expr(n)
+                return sp.Function("PTR")(sp.Symbol(base), off)
             return ex.env.get(nm, sp.Symbol(nm))
-        if k == "ArraySubscriptExpr":
-            base = cfront.strip(inner[0])
-            if base.get("kind") != "DeclRefExpr":
-                raise csymx.CUnsupported("subscript of a non-variable")
-            bname = ex.name(base["referencedDecl"]["name"])
-            idx = sp.simplify(self.expr(inner[1]))
+        if k == "ArraySubscriptExpr" or (k == "UnaryOperator" and n.get("opcode") == "*" and not (
+                _deref_param(n) is not None and ex.name(_deref_param(n)) in ex.alias[-1])):
+            # an element of an array: a[k], p[k] / *p / *(p + k) with p a cursor stepping through a
+            loc = ex.elem_loc(n)
+            if loc is None:
+                raise csymx.CUnsupported("subscript of a non-variable" if k == "ArraySubscriptExpr" else "dereference")
+            bname, idx = loc
             return ex.env.get(("elem", bname, idx), sp.Function(bname)(idx))
         if k == "UnaryOperator" and n.get("opcode") == "*":
-            p = _deref_param(n)
-            if p is not None and ex.name(p) in ex.alias[-1]:
-                v = ex.alias[-1][ex.name(p)]
-                return ex.env.get(v, sp.Symbol(v))
-            raise csymx.CUnsupported("dereference")
+            v = ex.alias[-1][ex.name(_deref_param(n))]
+            return ex.env.get(v, sp.Symbol(v))
+        if k == "BinaryOperator" and n.get("opcode") in ("<", ">", "<=", ">=", "==", "!=") and len(inner) == 2 and all(_is_ptr_type(_qual(x)) for x in inner):
+            # two positions in the same array compare like their offsets
+            a, b = ex.ptr_expr(inner[0]), ex.ptr_expr(inner[1])
+            if a is None or b is None or a[0] != b[0]:
+                raise csymx.CUnsupported("comparison of pointers that were not traced to one array")
+            return _int_rel(n["opcode"], a[1], b[1])
+        if k == "BinaryOperator" and n.get("opcode") in ("<", ">") and len(inner) == 2 and all(_is_int_type(_qual(x)) for x in inner):
+            # between integers a < b is a <= b - 1: one spelling for `i < m` and `i <= m - 1`
+            return _int_rel(n["opcode"], self.expr(inner[0]), self.expr(inner[1]))
+        if k == "BinaryOperator" and n.get("opcode") == "/" and len(inner) == 2 and _is_int_type(_qual(n)):
+            # integer division (operands of a count are not negative: rounds down)
+            return sp.floor(self.expr(inner[0]) / self.expr(inner[1]))
         if k == "CallExpr":
             nm = cfront.callee_name(n)
             if nm in ex.helpers and nm not in csymx.MATH:
@@ -387,8 +532,9 @@ class _CExec:
     """runs the statements of a C function in order on symbolic values.  Straight-line code is substituted forward (named
     temporaries disappear); a loop is summarised as: values of the variables it assigns on entry, the state transformer of one pass
     and its condition; helper functions with a body are executed in line (value parameters bound to the arguments, `&v` arguments
-    written through).  Not modelled (-> _NotModelled): break/continue, return inside loops, element stores or loops under an if,
-    backward goto."""
+    written through).  A local pointer that only ever holds positions in one array (_cursors) is kept as its offset there, so
+    `*p`, `p[k]`, `++p` are element accesses and index arithmetic.  Not modelled (-> _NotModelled): break/continue, return inside
+    a loop of the same function, element stores or loops under an if, backward goto, pointers stepped without a fixed array."""
 
     def __init__(self, fn, helpers):
         self.fn = fn
@@ -403,6 +549,8 @@ class _CExec:
         self.depth = 0
         self.history = {}
         self.cond_depth = 0
+        self.curs = [_cursors(fn)]
+        self.ret_base = 1
         self.lower = _CLower(self)
         self.retval = None
         body = cfront.body_of(fn)
@@ -433,6 +581,65 @@ class _CExec:
                     v = _addr_of_var(a)
                     if v is not None:
                         self.assign(self.name(v), sp.Symbol(self.name(v)))
+
+    # -- positions in arrays ------------------------------------------------
+    def ptr_expr(self, n):
+        """(array, offset) of an address expression: a, a + k, &a[k], a cursor into a (its current offset) +- k; None otherwise"""
+        s = n
+        while isinstance(s, dict) and s.get("kind") in ("ImplicitCastExpr", "ParenExpr", "CStyleCastExpr", "ConstantExpr") and s.get("inner"):
+            s = s["inner"][-1]
+        k = s.get("kind")
+        inner = s.get("inner", []) or []
+        if k == "DeclRefExpr" and _is_ptr_type(_qual(s)):
+            plain = s["referencedDecl"]["name"]
+            nm = self.name(plain)
+            if nm in self.alias[-1]:
+                return None
+            if plain in self.curs[-1]:
+                return self.name(self.curs[-1][plain]), self.env.get(nm, sp.Symbol(nm))
+            return nm, sp.Integer(0)
+        if k == "BinaryOperator" and s.get("opcode") in ("+", "-") and len(inner) == 2:
+            ptrs = [x for x in inner if _is_ptr_type(_qual(x))]
+            if len(ptrs) != 1 or (s["opcode"] == "-" and ptrs[0] is not inner[0]):
+                return None
+            b = self.ptr_expr(ptrs[0])
+            if b is None:
+                return None
+            d = self.lower.expr(inner[1] if ptrs[0] is inner[0] else inner[0])
+            return b[0], (b[1] + d if s["opcode"] == "+" else b[1] - d)
+        if k == "UnaryOperator" and s.get("opcode") == "&" and inner:
+            return self.elem_loc(cfront.strip(inner[0]))
+        return None
+
+    def elem_loc(self, n):
+        """(array, simplified index) of the element an lvalue `a[k]` / `*p` / `*(p + k)` / `p[k]` denotes; None otherwise"""
+        n = cfront.strip(n)
+        inner = n.get("inner", []) or []
+        if n.get("kind") == "ArraySubscriptExpr":
+            b = self.ptr_expr(inner[0])
+            if b is None:
+                return None
+            return b[0], sp.simplify(b[1] + self.lower.expr(inner[1]))
+        if n.get("kind") == "UnaryOperator" and n.get("opcode") == "*":
+            b = self.ptr_expr(inner[0])
+            if b is None:
+                return None
+            # `*v` of a variable that is not a cursor is only an element access when v is an array handed in
+            s = cfront.strip(inner[0])
+            if s.get("kind") == "DeclRefExpr" and s["referencedDecl"]["name"] not in self.curs[-1]:
+                return None
+            return b[0], sp.simplify(b[1])
+        return None
+
+    def ptr_assign(self, plain, rhs, line):
+        """cursor = address expression: the new offset in the cursor's array"""
+        if _null_ptr(rhs):
+            self.assign(self.name(plain), sp.Symbol("?null@%s" % line))
+            return
+        b = self.ptr_expr(rhs)
+        if b is None or b[0] != self.name(self.curs[-1][plain]):
+            raise _NotModelled("pointer `%s` set to a position that was not traced to `%s` (line %s)" % (plain, self.curs[-1][plain], line))
+        self.assign(self.name(plain), b[1])
 
     # -- statements -------------------------------------------------------
     def block(self, stmts, toplevel=False):
@@ -470,17 +677,29 @@ class _CExec:
                 init = [c for c in v.get("inner", []) if isinstance(c, dict) and c.get("kind")]
                 if init:
                     self.havoc_addr_args(init[-1])
-                    self.assign(self.name(v["name"]), self.value(init[-1], v["name"]))
+                    if v["name"] in self.curs[-1]:
+                        self.ptr_assign(v["name"], init[-1], st.get("line"))
+                    else:
+                        self.assign(self.name(v["name"]), self.value(init[-1], v["name"]))
             return False
+        if k == "BinaryOperator" and st.get("opcode") == ",":
+            # e1, e2 as a statement (loop increments): one after the other
+            return self.stmt(inner[0]) or self.stmt(inner[1])
         if k == "BinaryOperator" and st.get("opcode") == "=":
             self.havoc_addr_args(inner[1])
             lhs = cfront.strip(inner[0])
+            if lhs.get("kind") == "DeclRefExpr" and lhs["referencedDecl"]["name"] in self.curs[-1]:
+                self.ptr_assign(lhs["referencedDecl"]["name"], inner[1], st.get("line"))
+                return False
             val = self.value(inner[1], cfront.render(lhs))
+            try:
+                loc = self.elem_loc(lhs) if not (_deref_param(lhs) is not None and self.name(_deref_param(lhs)) in self.alias[-1]) else None
+            except (csymx.CUnsupported, KeyError, TypeError, ValueError, IndexError):
+                loc = None
             if lhs.get("kind") == "DeclRefExpr":
                 self.assign(self.name(lhs["referencedDecl"]["name"]), val)
-            elif lhs.get("kind") == "ArraySubscriptExpr" and cfront.strip(lhs["inner"][0]).get("kind") == "DeclRefExpr":
-                base = self.name(cfront.strip(lhs["inner"][0])["referencedDecl"]["name"])
-                idx = sp.simplify(self.value(lhs["inner"][1], "index"))
+            elif loc is not None:
+                base, idx = loc
                 if self.cond_depth:
                     raise _NotModelled("element store under an if (line %s)" % st.get("line"))
                 self.env[("elem", base, idx)] = val
@@ -497,6 +716,8 @@ class _CExec:
             lhs = cfront.strip(inner[0])
             if lhs.get("kind") != "DeclRefExpr":
                 raise _NotModelled("update of `%s` (line %s)" % (cfront.render(lhs), st.get("line")))
+            if _is_ptr_type(_qual(lhs)) and lhs["referencedDecl"]["name"] not in self.curs[-1]:
+                raise _NotModelled("pointer `%s` is stepped but was not traced to one array (line %s)" % (cfront.render(lhs), st.get("line")))
             nm = self.name(lhs["referencedDecl"]["name"])
             cur = self.env.get(nm, sp.Symbol(nm))
             if k == "UnaryOperator":
@@ -516,7 +737,7 @@ class _CExec:
                 self.havoc_addr_args(st)
             return False
         if k == "ReturnStmt":
-            if len(self.stack) > 1:
+            if len(self.stack) > self.ret_base:
                 raise _NotModelled("return inside a loop (line %s)" % st.get("line"))
             if self.depth and inner:
                 self.retval = self.value(inner[0], "return")
@@ -640,15 +861,21 @@ class _CExec:
             else:
                 self.havoc_addr_args(a)
                 vals.append((prefix + p, self.value(a, p)))
-        old_prefix, old_ret = getattr(self, "prefix", ""), self.retval
+        old_prefix, old_ret, old_base = getattr(self, "prefix", ""), self.retval, self.ret_base
         self.scope.append(scope)
         self.alias.append(alias)
+        self.curs.append(_cursors(callee))
+        self.ret_base = len(self.stack)      # loops of the caller that are open around the call are not loops of the helper
         self.prefix = prefix
         self.depth += 1
         self.retval = None
         try:
+            written = _written_names(callee)
             for pn, v in vals:
-                self.assign(pn, v)
+                if pn[len(prefix):] in written:
+                    self.assign(pn, v)
+                else:
+                    self.env[pn] = v         # a value parameter the helper only reads is a name for the argument, not a variable
             stmts = cfront.body_of(callee).get("inner", []) or []
             for k_, s in enumerate(stmts):
                 if self.stmt(s) and k_ != len(stmts) - 1:
@@ -659,6 +886,8 @@ class _CExec:
             self.prefix = old_prefix
             self.scope.pop()
             self.alias.pop()
+            self.curs.pop()
+            self.ret_base = old_base
             self.retval = old_ret
         return r
 
@@ -694,7 +923,66 @@ def _normal_form(fn, helpers, param_names):
         L.entry = {sub.get(v, v): _rename_terms(t, ssub) for v, t in L.entry.items()}
         L.out = {sub.get(v, v): _rename_terms(t, ssub) for v, t in L.out.items()}
         L.stores = [(sub.get(b, b), _rename_terms(i, ssub), _rename_terms(v, ssub), ln) for b, i, v, ln in L.stores]
+    _canon_loops(ex.top)
     return ex.top
+
+
+def _subst_loop(L, sub):
+    """rewrite the values of loop L's variables at the top of a pass: in its condition, transformer and stores, and in everything
+    the loops inside it say (their entry values are taken inside a pass of L)"""
+    def f(t):
+        return t.xreplace(sub) if isinstance(t, sp.Basic) else t
+    L.cond = f(L.cond)
+    L.out = {v: f(t) for v, t in L.out.items()}
+    L.stores = [(b, sp.simplify(f(i)) if isinstance(i, sp.Basic) else i, f(v), ln) for b, i, v, ln in L.stores]
+    for c in L.children:
+        for D in c.walk():
+            D.entry = {v: f(t) for v, t in D.entry.items()}
+            D.cond = f(D.cond)
+            D.out = {v: f(t) for v, t in D.out.items()}
+            D.stores = [(b, sp.simplify(f(i)) if isinstance(i, sp.Basic) else i, f(v), ln) for b, i, v, ln in D.stores]
+
+
+def _canon_loops(top):
+    """one spelling for the ways of counting the passes of a loop.  (1) A counter (a variable of the loop condition that starts at an
+    integer constant and grows by one per pass) is re-based to start at 1: `for (i = 0; i < m; ++i) .. x[i]` and
+    `for (i = 1; i <= m; ++i) .. x[i-1]` become the same loop.  (2) Any other variable that changes by a loop-invariant amount per
+    pass (a stepped pointer offset, a running index) is replaced by its closed form entry + step (i - 1) and is no longer a
+    loop-carried variable: `++p; .. *p = v` is `x[i-1] = v`."""
+    for L in top.walk():
+        if L.kind == "top":
+            continue
+        inner_defs = set()
+        for c in L.children:
+            for D in c.walk():
+                inner_defs |= D.defined
+        own = {sp.Symbol(v) for v in L.defined}
+
+        def invariant(t):
+            return isinstance(t, sp.Basic) and not (t.free_symbols & own) and not any(str(x).startswith("?") for x in t.free_symbols)
+        counters = [v for v in sorted(L.defined) if v not in inner_defs and isinstance(L.out.get(v), sp.Basic) and _zero(L.out[v] - sp.Symbol(v) - 1)
+                    and isinstance(L.entry.get(v), sp.Basic) and L.entry[v].is_Integer]
+        in_cond = [v for v in counters if isinstance(L.cond, sp.Basic) and sp.Symbol(v) in L.cond.free_symbols]
+        if not (in_cond or counters):
+            continue
+        i = (in_cond or counters)[0]
+        I = sp.Symbol(i)
+        e0 = L.entry[i]
+        if e0 != 1:
+            _subst_loop(L, {I: I + e0 - 1})
+            L.entry[i] = sp.Integer(1)
+            L.out[i] = I + 1
+        for u in sorted(L.defined - {i} - inner_defs):
+            out, ent = L.out.get(u), L.entry.get(u)
+            if not (isinstance(out, sp.Basic) and invariant(ent)):
+                continue
+            step = sp.simplify(out - sp.Symbol(u))
+            if not invariant(step):
+                continue
+            _subst_loop(L, {sp.Symbol(u): ent + step * (I - 1)})
+            L.defined.discard(u)
+            L.entry.pop(u, None)
+            L.out.pop(u, None)
 
 
 def _zero(e):
@@ -843,7 +1131,7 @@ def formulas(chk, nf, name, where):
     # root loop: i = 1 .. (npts+1)/2
     bi = _bound(root, "i")
     has(root, "entry", "i", sp.Integer(1), "root-loop-range", "roots i = 1.. are computed and mirrored, i starts at 1")
-    ob("number of roots computed (half, rounded up)", None if "i" not in root.defined else (bi is not None and _same_term(bi, (npts + 1) / 2) and _same_term(root.out.get("i"), i + 1)),
+    ob("number of roots computed (half, rounded up)", None if "i" not in root.defined else (bi is not None and _same_term(sp.floor(bi), sp.floor((npts + 1) / 2)) and _same_term(root.out.get("i"), i + 1)),
        "the root loop runs while i <= (npts+1)/2 in steps of one (condition %s, step %s)" % (root.cond, root.out.get("i")))
     has(newton, "entry", "z", sp.cos(sp.pi * (i - sp.Rational(1, 4)) / (npts + sp.Rational(1, 2))), "initial guess of root i", "z starts at cos(pi (i - 1/4)/(n + 1/2))")
     # recurrence loop
@@ -1121,6 +1409,333 @@ def _param_unchanged(fi, name):
     return not any(name in cfg.defs_uses(n)[0] for n in cfg.nodes if n.kind != "entry")
 
 
+# ---------------------------------------------------------------------------
+# where a (abscissae, weights) pair comes from: abstract evaluation of the functions that hand out rules
+# ---------------------------------------------------------------------------
+class _RV:
+    """abstract value `component k (0 abscissae, 1 weights) of what gauleg(x1, x2, count) returns`; count is an expression over the
+    state on entry of the function being evaluated (a parameter, a constant, an attribute of self)"""
+    __slots__ = ("x1", "x2", "count", "k")
+
+    def __init__(self, x1, x2, count, k):
+        self.x1, self.x2, self.count, self.k = x1, x2, count, k
+
+    def key(self):
+        return (self.x1, self.x2, norm(self.count), self.k)
+
+    def with_count(self, c):
+        return _RV(self.x1, self.x2, c, self.k)
+
+
+class _Pair:
+    """a two-item sequence of rule components; gauleg's result is _Pair(component 0, component 1) of one rule"""
+    __slots__ = ("a", "b")
+
+    def __init__(self, a, b):
+        self.a, self.b = a, b
+
+    def key(self):
+        return (self.a.key(), self.b.key())
+
+    def item(self, k):
+        return (self.a, self.b)[k]
+
+    def proper(self):
+        """abscissae first, weights second, of one rule"""
+        return (self.a.k, self.b.k) == (0, 1) and self.a.key()[:3] == self.b.key()[:3]
+
+    @staticmethod
+    def of_rule(x1, x2, count):
+        return _Pair(_RV(x1, x2, count, 0), _RV(x1, x2, count, 1))
+
+
+_NONE, _UNKNOWN = "none", "unknown"
+_KEEP_ARRAY = {"array", "asarray", "asanyarray", "ascontiguousarray", "copy"}
+_INPLACE = {"sort", "fill", "put", "itemset", "resize", "partition", "setfield", "byteswap", "setflags"}
+_DICT_READS = {"get", "pop", "clear", "keys"}
+
+
+class _RuleEval:
+    """For one function: which Gauss-Legendre rule an expression holds, for every way of reaching it.  Values are followed over
+    reaching definitions through tuple unpacking and packing, value-keeping copies, private helpers (their summary: what each return
+    hands back, in terms of the parameters) and module-level memo tables `T[count] = rule` whose every writer stores the rule of
+    the key (so a read T.get(k) / T[k] is that rule or, for get, None).  int(n) / operator.index(n) of a point count is that count
+    (the property quantifies over integer n).  Anything else is `unknown`."""
+
+    _summaries = {}
+    _memo = {}
+
+    def __init__(self, repo, fi):
+        self.repo, self.fi = repo, fi
+        self.cfg = cfg_of(fi)
+        self.view = self.cfg.view()
+        self.IN, _ = self.view.reaching_defs()
+        self.params = [p for p in fi.params if not p.startswith("*")]
+        self.mutates = self._mutates()
+
+    def _mutates(self):
+        """does the function change array elements in place somewhere (then a followed array need not hold what it was given)"""
+        for x in walk_no_nested(self.fi.node):
+            if isinstance(x, ast.Subscript) and isinstance(x.ctx, (ast.Store, ast.Del)) and not (
+                    isinstance(x.value, ast.Name) and x.value.id in self.fi.module.consts and x.value.id not in self.params):
+                return True
+            if isinstance(x, ast.AugAssign):
+                return True
+            if isinstance(x, ast.Call) and ((isinstance(x.func, ast.Attribute) and x.func.attr in _INPLACE) or kwarg(x, "out") is not None):
+                return True
+        return False
+
+    # -- the count ------------------------------------------------------------
+    def count_of(self, e, node, depth=0):
+        if depth > 8 or e is None:
+            return None
+        if isinstance(e, ast.Constant) and isinstance(e.value, int) and not isinstance(e.value, bool):
+            return e
+        if isinstance(e, ast.Attribute) and norm(e).startswith("self.") and norm(e).count(".") == 1:
+            return e
+        if isinstance(e, ast.Call) and len(e.args) == 1 and not e.keywords and (
+                (isinstance(e.func, ast.Name) and e.func.id == "int") or self.repo.resolve_name(self.fi.module, dotted_name(e.func) or "?") == "operator.index"):
+            return self.count_of(e.args[0], node, depth + 1)
+        if isinstance(e, ast.Name):
+            defs = self.IN.get(node.id, {}).get(e.id)
+            if not defs or len(defs) != 1:
+                return None
+            d = next(iter(defs))
+            if d == self.cfg.entry.id:
+                return e if e.id in self.params else None
+            dn = self.cfg.node(d)
+            a = dn.ast
+            if dn.kind == "stmt" and isinstance(a, ast.Assign) and len(a.targets) == 1 and isinstance(a.targets[0], ast.Name) and a.targets[0].id == e.id:
+                return self.count_of(a.value, dn, depth + 1)
+        return None
+
+    # -- calls that produce a rule ----------------------------------------------
+    def rule_call(self, call, node):
+        """alternatives (_Pair / _UNKNOWN) of a call of gauleg or of a module-level function whose returns hand back rule components;
+        None for any other call"""
+        d = dotted_name(call.func)
+        q = self.repo.resolve_name(self.fi.module, d) if d else None
+        if q == IU + "gauleg":
+            b = _bind_call(self.repo.func(q), call)
+            if b is None or not all(p in b for p in ("x1", "x2", "npts")):
+                return [_UNKNOWN]
+            x1, x2 = const_value(b["x1"]), const_value(b["x2"])
+            c = self.count_of(b["npts"], node)
+            if c is None or not all(isinstance(v, (int, float)) and not isinstance(v, bool) for v in (x1, x2)):
+                return [_UNKNOWN]
+            return [_Pair.of_rule(float(x1), float(x2), c)]
+        f = self.repo.funcs.get(q) if q else None
+        if f is None or f.cls is not None or f is self.fi:
+            return None
+        summ = _RuleEval.summary(self.repo, f)
+        if summ is None:
+            return None
+        b = _bind_call(f, call)
+        if b is None:
+            return [_UNKNOWN]
+
+        def at_call(rv):
+            c = rv.count
+            if isinstance(c, ast.Name):
+                c = self.count_of(b.get(c.id, f.defaults.get(c.id)), node)
+            return rv.with_count(c) if c is not None else None
+        out = []
+        for P in summ:
+            x, y = at_call(P.a), at_call(P.b)
+            out.append(_Pair(x, y) if x is not None and y is not None else _UNKNOWN)
+        return out
+
+    @classmethod
+    def summary(cls, repo, f):
+        """what the module-level function f returns, one _Pair per distinct alternative with the counts written over f's (never
+        re-bound) parameters; None when some return is not positively a pair of rule components"""
+        if f.qualname in cls._summaries:
+            return cls._summaries[f.qualname]
+        cls._summaries[f.qualname] = None          # recursion: no summary
+        ev = _RuleEval(repo, f)
+        vals = []
+        for r in rules.return_nodes(ev.cfg):
+            vals += ev.value(r.ast.value, r) if r.ast.value is not None else [_NONE]
+        out = None
+        if vals and not ev.mutates and all(isinstance(v, _Pair) for v in vals) and all(
+                isinstance(c, ast.Constant) or (isinstance(c, ast.Name) and _param_unchanged(f, c.id)) for v in vals for c in (v.a.count, v.b.count)):
+            out = list({v.key(): v for v in vals}.values())
+        cls._summaries[f.qualname] = out
+        return out
+
+    # -- module-level memo tables -----------------------------------------------
+    def memo_table(self, name):
+        """(x1, x2) when the module-level name is a dictionary that maps a point count to the rule for that count: created empty,
+        never rebound or handed out, and every store `T[k] = v` anywhere in the module stores the rule for count k; else None"""
+        mod = self.fi.module
+        key = (mod.name, name)
+        if key in _RuleEval._memo:
+            return _RuleEval._memo[key]
+        init = mod.consts.get(name)
+        empty = (isinstance(init, ast.Dict) and not init.keys) or (isinstance(init, ast.Call) and call_name(init) == "dict" and not init.args and not init.keywords)
+        if not empty or name in self.params:
+            _RuleEval._memo[key] = None
+            return None
+        _RuleEval._memo[key] = ("assumed",)         # inductive invariant: reads made while checking the writers may rely on it
+        parent = {}
+        for x in ast.walk(mod.tree):
+            for c in ast.iter_child_nodes(x):
+                parent[c] = x
+        ok, bounds = True, set()
+        for x in ast.walk(mod.tree):
+            if isinstance(x, ast.Global) and name in x.names:
+                ok = False
+            if not (isinstance(x, ast.Name) and x.id == name):
+                continue
+            par = parent.get(x)
+            if isinstance(x.ctx, ast.Store):
+                ok = ok and isinstance(par, ast.Assign) and par in mod.tree.body and par.value is init
+            elif isinstance(par, ast.Subscript) and par.value is x and isinstance(par.ctx, (ast.Load, ast.Del)):
+                pass
+            elif isinstance(par, ast.Subscript) and par.value is x and isinstance(par.ctx, ast.Store):
+                st = parent.get(par)
+                owner = [f for f in mod.funcs.values() if any(y is st for y in walk_no_nested(f.node))]
+                if not (isinstance(st, ast.Assign) and len(st.targets) == 1 and len(owner) == 1):
+                    ok = False
+                    continue
+                ev = self if owner[0] is self.fi else _RuleEval(self.repo, owner[0])
+                nodes = [n for n in ev.cfg.nodes if n.ast is st]
+                if len(nodes) != 1 or ev.mutates:
+                    ok = False
+                    continue
+                k = ev.count_of(par.slice, nodes[0])
+                vals = ev.value(st.value, nodes[0])
+                if k is None or not vals or not all(isinstance(v, _Pair) and v.proper() and norm(v.a.count) == norm(k) for v in vals):
+                    ok = False
+                    continue
+                bounds |= {(v.a.x1, v.a.x2) for v in vals}
+            elif isinstance(par, ast.Attribute) and par.value is x and par.attr in _DICT_READS and isinstance(parent.get(par), ast.Call) and parent[par].func is par:
+                pass
+            elif isinstance(par, ast.Compare) and any(x is c for c in par.comparators) and all(isinstance(o, (ast.In, ast.NotIn)) for o in par.ops):
+                pass
+            elif isinstance(par, ast.Call) and call_name(par) == "len" and len(par.args) == 1 and par.args[0] is x:
+                pass
+            else:
+                ok = False           # handed to other code / updated in a way not followed
+        res = next(iter(bounds)) if ok and len(bounds) == 1 and None not in next(iter(bounds)) else None
+        _RuleEval._memo[key] = res
+        return res
+
+    def table_read(self, e, node):
+        """[_Pair, (_NONE)] when e is T[k] / T.get(k) / T.get(k, None) on a memo table"""
+        if isinstance(e, ast.Subscript) and isinstance(e.value, ast.Name):
+            name, k, opt = e.value.id, e.slice, False
+        elif isinstance(e, ast.Call) and isinstance(e.func, ast.Attribute) and e.func.attr == "get" and isinstance(e.func.value, ast.Name) \
+                and not e.keywords and (len(e.args) == 1 or (len(e.args) == 2 and _is_none(e.args[1]))):
+            name, k, opt = e.func.value.id, e.args[0], True
+        else:
+            return None
+        if name not in self.fi.module.consts or self.IN.get(node.id, {}).get(name):
+            return None
+        t = self.memo_table(name)
+        if t is None:
+            return None
+        c = self.count_of(k, node)
+        if c is None:
+            return [_UNKNOWN]
+        x1, x2 = (None, None) if t == ("assumed",) else t
+        return [_Pair.of_rule(x1, x2, c)] + ([_NONE] if opt else [])
+
+    # -- values -----------------------------------------------------------------
+    def value(self, e, node, depth=0, seen=frozenset()):
+        """list of _Pair / _RV / _NONE / _UNKNOWN, one per way the expression can have got its value"""
+        if depth > 12:
+            return [_UNKNOWN]
+        if _is_none(e):
+            return [_NONE]
+        if isinstance(e, ast.IfExp):
+            return self.value(e.body, node, depth + 1, seen) + self.value(e.orelse, node, depth + 1, seen)
+        if isinstance(e, ast.Name):
+            defs = self.IN.get(node.id, {}).get(e.id)
+            if not defs:
+                return [_UNKNOWN]
+            out = []
+            for d in sorted(defs):
+                if d == self.cfg.entry.id or (d, e.id) in seen:
+                    out.append(_UNKNOWN)
+                    continue
+                dn = self.cfg.node(d)
+                a = dn.ast
+                if not (dn.kind == "stmt" and isinstance(a, ast.Assign) and len(a.targets) == 1):
+                    out.append(_UNKNOWN)
+                    continue
+                t = a.targets[0]
+                if isinstance(t, ast.Name):
+                    out += self.value(a.value, dn, depth + 1, seen | {(d, e.id)})
+                elif isinstance(t, (ast.Tuple, ast.List)) and len(t.elts) == 2 and [norm(x) for x in t.elts].count(e.id) == 1 and all(isinstance(x, ast.Name) for x in t.elts):
+                    k = [norm(x) for x in t.elts].index(e.id)
+                    out += self.component(self.value(a.value, dn, depth + 1, seen | {(d, e.id)}), k)
+                else:
+                    out.append(_UNKNOWN)
+            return out
+        if isinstance(e, (ast.Tuple, ast.List)) and len(e.elts) == 2:
+            a, b = (self.value(x, node, depth + 1, seen) for x in e.elts)
+            if a and b and len(a) * len(b) <= 8 and all(isinstance(v, _RV) for v in a + b):
+                return [_Pair(x, y) for x in a for y in b]
+            return [_UNKNOWN]
+        r = self.table_read(e, node)
+        if r is not None:
+            return r
+        if isinstance(e, ast.Subscript) and isinstance(const_value(e.slice), int) and not isinstance(const_value(e.slice), bool) and -2 <= const_value(e.slice) < 2:
+            return self.component(self.value(e.value, node, depth + 1, seen), const_value(e.slice) % 2)
+        if isinstance(e, ast.Call):
+            r = self.rule_call(e, node)
+            if r is not None:
+                return r
+            # copies that keep every element: v.copy(), numpy.array(v) ... without a dtype
+            f = e.func
+            if isinstance(f, ast.Attribute) and f.attr == "copy" and not e.args and not e.keywords and dotted_name(f.value) not in ("numpy", "np", "copy"):
+                return self.kept(self.value(f.value, node, depth + 1, seen))
+            d = dotted_name(f)
+            full = self.repo.resolve_name(self.fi.module, d) if d else ""
+            if (full.startswith("numpy.") and full.rsplit(".", 1)[-1] in _KEEP_ARRAY or full in ("copy.copy", "copy.deepcopy")) and len(e.args) == 1 \
+                    and all(k.arg in ("copy", "order") for k in e.keywords):
+                return self.kept(self.value(e.args[0], node, depth + 1, seen))
+        return [_UNKNOWN]
+
+    @staticmethod
+    def component(vals, k):
+        """k-th item of each alternative; None has no items (the statement raises: that way of getting here hands nothing on)"""
+        return [v.item(k) if isinstance(v, _Pair) else _UNKNOWN for v in vals if v != _NONE]
+
+    @staticmethod
+    def kept(vals):
+        """an element-keeping copy of one table; of None it raises"""
+        return [v if isinstance(v, _RV) else _UNKNOWN for v in vals if v != _NONE]
+
+
+def _rule_of_call(repo, fi, call, node):
+    """the alternatives (_Pair, counts in the terms of fi) of a call that produces rule components -- gauleg itself or a module-level
+    helper that hands out rules (summarised by _RuleEval); None when it is no such call or some alternative could not be decided"""
+    r = _RuleEval(repo, fi).rule_call(call, node)
+    if r and all(isinstance(v, _Pair) and None not in (v.a.x1, v.b.x1) for v in r):
+        return r
+    return None
+
+
+def _rule_call_count(repo, fi, call):
+    """the argument expression (as written at the call) that is the point count of the rule the call produces, abscissae first and
+    weights second; None when the call is not gauleg / such a helper"""
+    d = dotted_name(call.func)
+    q = repo.resolve_name(fi.module, d) if d else None
+    f = repo.funcs.get(q) if q else None
+    if f is None or f.cls is not None:
+        return None
+    b = _bind_call(f, call)
+    if q == IU + "gauleg":
+        return b.get("npts") if b else None
+    summ = _RuleEval.summary(repo, f)
+    if not summ or b is None or not all(P.proper() for P in summ) or len({norm(P.a.count) for P in summ}) != 1:
+        return None
+    c = summ[0].a.count
+    return b.get(c.id, f.defaults.get(c.id)) if isinstance(c, ast.Name) else c
+
+
 TABLES = ("self.xxi", "self.wii")
 
 
@@ -1227,12 +1842,16 @@ def memo(chk, repo):
         c1, k1 = _component(tabs[1][1], cfg, fn)
         okt = None
         arg = None
-        if c0 is not None and c1 is not None and _resolves_to(repo, fi, c0, IU + "gauleg") and _resolves_to(repo, fi, c1, IU + "gauleg"):
-            b = _bind_call(repo.func(IU + "gauleg"), c0)
-            if b is not None and all(p in b for p in ("x1", "x2", "npts")):
-                arg = norm(rules.expand(b["npts"], fn))
-                okt = (c0 is c1 or norm(c0) == norm(c1)) and (k0, k1) == (0, 1) and const_value(b["x1"]) == -1.0 and const_value(b["x2"]) == 1.0 \
-                    and arg in ("npts", "self.npts") and rules.xnorm(key[1], fn) == "npts" if not isinstance(key[1], tuple) else False
+        # the producing call is gauleg itself or a helper that hands out rules (what it returns is decided by _RuleEval)
+        r0 = _rule_of_call(repo, fi, c0, tabs[0][0]) if c0 is not None else None
+        r1 = r0 if c1 is c0 else (_rule_of_call(repo, fi, c1, tabs[1][0]) if c1 is not None else None)
+        if r0 is not None and r1 is not None and k0 in (0, 1) and k1 in (0, 1):
+            # in every alternative: the first table is component 0 (abscissae), the second component 1 (weights) of the rule on [-1, 1]
+            got = [(P.item(k0), 0) for P in r0] + [(P.item(k1), 1) for P in r1]
+            args = {norm(rules.expand(v.count, fn)) for v, _ in got}
+            arg = next(iter(args)) if len(args) == 1 else None
+            okt = (c0 is c1 or norm(c0) == norm(c1)) and all(v.k == k and v.x1 == -1.0 and v.x2 == 1.0 for v, k in got) \
+                and arg in ("npts", "self.npts") and rules.xnorm(key[1], fn) == "npts" if not isinstance(key[1], tuple) else False
         chk.ob("R17.5", "QGauss.setup::tables-from-key", okt, fi.where(), "the tables are the rule on [-1,1] for the stored count (%s)" % (norm(c0) if c0 is not None else None,))
         if okt is not None:
             chk.ob("R17.5", "QGauss.setup::key-before-tables-or-same-value", arg == "npts" or (arg == "self.npts" and view.dominates(key[0], tabs[0][0])), fi.where(), "the count used for the tables is the requested one")
@@ -1539,6 +2158,11 @@ class _Flow:
             inner = self.origins(c[0], node, seen, depth + 1)
             st = self.step(e, node, inner)
             return [(p, [st] + steps) for p, steps in inner]
+        if isinstance(e, ast.Subscript) and isinstance(e.ctx, ast.Load) and _plain_slice(e.slice):
+            # a[lo:hi]: a run of consecutive elements of the array, each with the value it has there (a table searched or
+            # interpolated in part is still that table: which part is a question for the formula rules, not for this one)
+            inner = self.origins(e.value, node, seen, depth + 1)
+            return [(p, [_Step(e, True, "takes consecutive elements unchanged")] + steps) for p, steps in inner]
         return [(None, [])]
 
     def conversions(self):
@@ -1549,6 +2173,13 @@ class _Flow:
                 if self.conversion(c) is not None:
                     out.append((n, c))
         return out
+
+
+def _plain_slice(s):
+    """lo:hi with unit step (also per axis: a[lo:hi, :])"""
+    if isinstance(s, ast.Tuple):
+        return bool(s.elts) and all(_plain_slice(x) for x in s.elts)
+    return isinstance(s, ast.Slice) and (s.step is None or const_value(s.step) == 1)
 
 
 def stmts_calls_of(n):
@@ -1767,9 +2398,10 @@ def shapes(chk, repo):
                 k += 1
             return _Arr(shape, base.elem.xreplace(sub))
         if isinstance(e, ast.Call):
-            if call_name(e) == "gauleg" and repo.resolve_name(fi.module, dotted_name(e.func) or "?") == IU + "gauleg":
-                b = _bind_call(repo.func(IU + "gauleg"), e)
-                n = dim(b["npts"]) if b and "npts" in b else None
+            cnt = _rule_call_count(repo, fi, e)
+            if cnt is not None:
+                # gauleg, or a helper that hands out the rule for the count it is given (decided by _RuleEval.summary)
+                n = dim(cnt)
                 if n is None:
                     return None
                 k = len(rules_used)
